@@ -48,10 +48,10 @@ func (m *machine) runPar(s M, enc *json.Encoder) {
 		Buf string `json:"buf"`
 	}
 	var (
-		pmu    sync.Mutex
-		seq    int64
-		pevs   []poolEv
-		idOf   sync.Map // goroutine id -> worker index
+		pmu  sync.Mutex
+		seq  int64
+		pevs []poolEv
+		idOf sync.Map // goroutine id -> worker index
 	)
 	hook := func(e decimal.VerifPoolEvent) {
 		g := -1
